@@ -247,6 +247,85 @@ def run_closure_task(task, acc):
                 check_closure_case(case, acc, cfg)
 
 
+def judge_one(bad, cfg, enc, hx, case, acc, note):
+    """one decode judged by both directions of the oracle; -> True if a violation was recorded"""
+    from cardutil import iso8583, CardutilError
+    status, val = faults.guarded(lambda: iso8583.loads(bad, encoding=enc, iso_config=cfg, hex_bitmap=hx), 3.0)
+    verdict, ref = iso_ref.strict_decode(bad, cfg, enc, hx)
+    lib = 'accept' if status == 'ok' else 'reject' if (status == 'exc' and isinstance(val, CardutilError)) else 'crash'
+    acc.outcome('seq lib:%s ref:%s' % (lib, verdict))
+    if lib == 'crash':
+        return False
+    if lib == 'accept' and isinstance(val, dict):
+        why = retile(bad, cfg, enc, hx, val)
+        if why:
+            acc.viol('c08.sequence.misframed.' + why[0], case, why[1], 'elements tile the message exactly', note)
+            return True
+        if verdict == 'accept' and val != ref:
+            diff = [k for k in sorted(set(val) | set(ref)) if val.get(k, '<absent>') != ref.get(k, '<absent>')]
+            acc.viol('c08.sequence.reading_differs', case, '%s=%r' % (diff[0], val.get(diff[0], '<absent>')),
+                     '%s=%r' % (diff[0], ref.get(diff[0], '<absent>')), note)
+            return True
+        if verdict == 'reject':
+            acc.viol('c08.sequence.accepts_ill_framed', case, 'accepted', 'rejected: ' + str(ref), note)
+            return True
+    elif lib == 'reject' and verdict == 'accept':
+        acc.viol('c08.sequence.rejects_well_framed', case, 'rejected: %s' % val, 'accepted', note)
+        return True
+    return False
+
+
+def check_sequence_case(case, acc):
+    """(a) 'alt': the same process decodes messages under configuration A, then B, then A ... (same bits, other
+    widths / types); (b) 'inplace': ONE configuration object whose entries are edited in place between decodes.
+    Every decode is judged against the configuration as it is at that moment."""
+    import copy
+    acc.case(('seq', repr(case)), nontrivial=True, outcome='sequence')
+    if case['kind'] == 'alt':
+        for i, (name, enc, hx) in enumerate(case['steps']):
+            data, st, cfg, _ = base_of(name, enc, hx)
+            if judge_one(data, cfg, enc, hx, case, acc, 'step %d: %s under its own configuration after the others' % (
+                    i + 1, name)):
+                return
+        return
+    name, enc, hx = case['base']
+    data, st, cfg0, _ = base_of(name, enc, hx)
+    cfg = copy.deepcopy(cfg0)
+    for i, edits in enumerate(case['edits']):
+        for e in edits:
+            from vf import isogen
+            isogen.apply_edit(cfg, e)
+        if judge_one(data, cfg, enc, hx, case, acc, 'step %d after in-place edits %s' % (i + 1, edits)):
+            return
+
+
+def sequence_cases():
+    out = []
+    names = [('plain', 'latin_1', False), ('gen', 'latin_1', False), ('typed', 'latin_1', False),
+             ('pds', 'cp500', True), ('icc', 'cp500', False), ('maxvar', 'latin_1', False), ('z_all', 'latin_1', False)]
+    import itertools as it
+    for a, b in it.permutations(names, 2):
+        out.append({'kind': 'alt', 'steps': [list(a), list(b), list(a)]})
+    for a, b, c in it.permutations(names[:4], 3):
+        out.append({'kind': 'alt', 'steps': [list(a), list(b), list(c), list(a), list(b)]})
+    # in place: widen / narrow a fixed element, retype, move it between FIXED and LLVAR, then undo
+    for base, bit, w in ((('plain', 'latin_1', False), 3, 6), (('plain', 'cp500', False), 22, 12),
+                         (('typed', 'latin_1', False), 4, 12), (('gen', 'latin_1', False), None, None)):
+        if bit is None:
+            continue
+        out.append({'kind': 'inplace', 'base': list(base), 'edits': [
+            [], [['set', bit, 'field_length', w + 2]], [['set', bit, 'field_length', w - 1]],
+            [['set', bit, 'field_length', w]], [['set', bit, 'field_type', 'LLVAR']],
+            [['set', bit, 'field_type', 'FIXED']], []]})
+    out.append({'kind': 'inplace', 'base': ['plain', 'latin_1', False], 'edits': [
+        [], [['set', 2, 'field_type', 'LLLVAR']], [['set', 2, 'field_type', 'LLVAR']],
+        [['set', 2, 'field_processor', 'PAN']], [['del', 2, 'field_processor']], []]})
+    out.append({'kind': 'inplace', 'base': ['pds', 'latin_1', False], 'edits': [
+        [], [['del', 48, 'field_processor']], [['set', 48, 'field_processor', 'PDS']],
+        [['set', 49, 'field_python_type', 'int']], [['del', 49, 'field_python_type']], []]})
+    return out
+
+
 def mutations(data, struct, tier, enc):
     for m in c07.msg_mutations(data, struct, tier, enc):
         yield m
@@ -274,6 +353,8 @@ def tasks(tier, seed):
         prs = closure_pairs(cfgname, 20 if tier == 'quick' else 60)
         for ch in core.spread(prs, 8 if tier == 'quick' else 32):
             ts.append({'closure': True, 'cfg': cfgname, 'enc': enc, 'hex': hx, 'pairs': ch, 'k': k})
+    for ch in core.chunks(sequence_cases(), 8):
+        ts.append({'sequences': ch})
     return ts
 
 
@@ -281,6 +362,11 @@ def run_task(task):
     acc = core.Acc()
     if task.get('closure'):
         run_closure_task(task, acc)
+        return acc
+    if task.get('sequences'):
+        acc.sample(task['sequences'][0])
+        for case in task['sequences']:
+            check_sequence_case(case, acc)
         return acc
     base = base_of(task['msg'], task['enc'], task['hex'])
     muts = list(mutations(base[0], base[1], task['tier'], task['enc']))
@@ -303,7 +389,9 @@ def describe(tier, seed):
                 'structural positions x 11 values; every string over the 11-value alphabet in every length numeral; '
                 'extension by 1..3 bytes; every bitmap bit flipped}; closure: MTI + bitmap{one variable-length bit, or a '
                 'variable-length bit and a later fixed bit of width <= 3} + every string of length <= %d over 9 '
-                'symbols (0 1 2 3 - + space A 0xFF), under packaged / custom / generated configurations. Oracle (=>): when loads returns, re-tile from the '
+                'symbols (0 1 2 3 - + space A 0xFF), under packaged / custom / generated configurations; sequences: base messages decoded under '
+                'alternating configurations (A, B, A and A, B, C, A, B) and under ONE configuration object edited in '
+                'place between decodes (widths, field types, processors, python types). Oracle (=>): when loads returns, re-tile from the '
                 'returned dict - each flagged element has a value, occupies prefix + declared bytes (plain-digit '
                 'prefixes must equal the value length, negative lengths are never acceptable), the value is the '
                 'content of its own bytes, slots are consecutive and end at the end of the message, no unflagged '
@@ -324,6 +412,8 @@ def replay_case(case):
     acc = core.Acc()
     if case.get('kind') == 'closure':
         check_closure_case(case, acc)
+    elif case.get('kind') in ('alt', 'inplace'):
+        check_sequence_case(case, acc)
     else:
         check_case(case, acc)
     return acc
